@@ -5,7 +5,7 @@ import hashlib, json, os, shutil, subprocess, sys, tempfile, time, fcntl
 
 VERIF = os.path.dirname(os.path.dirname(os.path.abspath(__file__)))
 REPO = os.environ.get('VERIF_REPO', '/repo')
-CACHE = os.path.join(VERIF, '.cache')
+CACHE = os.environ.get('VERIF_CACHE') or os.path.join(VERIF, '.cache')
 DRIVER = os.path.join(VERIF, 'factdump', 'target', 'release', 'factdump')
 TMPLX = os.path.join(VERIF, 'tmplx', 'target', 'release', 'tmplx')
 
@@ -73,7 +73,7 @@ class Stage:
             prune()
             return self.dir
 
-def prune(keep=3):
+def prune(keep=int(os.environ.get('VERIF_CACHE_KEEP', '3'))):
     try:
         ds = [os.path.join(CACHE, d) for d in os.listdir(CACHE) if os.path.isdir(os.path.join(CACHE, d))]
         ds.sort(key=lambda d: os.stat(d).st_mtime, reverse=True)
